@@ -32,11 +32,16 @@ type touch struct {
 var touches = []touch{
 	{"core/util", "merkle_patricia_trie.go", "MerklePatriciaTrie", "addMissingNodeKeys", "= append(", `sync.Touch(&$R.missingNodeKeys, true, "MerklePatriciaTrie.missingNodeKeys")`},
 	{"core/util", "merkle_patricia_trie.go", "MerklePatriciaTrie", "GetMissingNodeKeys", "make([]Key", `sync.Touch(&$R.missingNodeKeys, false, "MerklePatriciaTrie.missingNodeKeys")`},
-	{"core/logging", "inmemory_logger.go", "MemCore", "Write", "entry", `sync.Touch($R.mu, true, "MemCore ring buffer")`},
-	{"core/logging", "inmemory_logger.go", "MemLogger", "GetLogs", ".r.Do(", `sync.Touch($R.core.mu, false, "MemCore ring buffer")`},
+	// between reading the write position and advancing it: a writer that is not excluded by the same
+	// lock can slip in here (address = the shared write position)
+	{"core/logging", "inmemory_logger.go", "MemCore", "Write", "entry.Entry = ent", `sync.Touch(cur, true, "MemCore ring buffer")`},
+	{"core/logging", "inmemory_logger.go", "MemLogger", "GetLogs", ".r.Do(", `sync.Touch(&$R.core.r, false, "MemCore ring buffer")`},
 }
 
 func applyTouches(fset *token.FileSet, f *ast.File, pkg, file string) {
+	if os.Getenv("VERIF_NOTOUCH") != "" {
+		return
+	}
 	for _, t := range touches {
 		if t.pkg != pkg || t.file != file {
 			continue
